@@ -53,3 +53,11 @@ def interval_table(bin_type, t, t2, neg_inf, pos_inf):
     lower_eq = bin_type in ("above=", "=within", "=within=")
     upper_eq = bin_type in ("below=", "within=", "=within=")
     return lower, upper, lower_eq, upper_eq
+
+
+def _register_lean():
+    from pyvc import leancheck
+    leancheck.register(("C05", "C06", "C04", "C08", "C11"), ["R1", "R2", "R3", "R4", "R5", "R6", "R7", "R8", "R9", "R10"])
+
+
+_register_lean()
